@@ -124,6 +124,57 @@ def r6(cx):
              "still occupied behind an earlier, slower commit; a few failing commits then overflow the 8-slot queue and the next commit panics" % (len(bad), b.where(bad[0]) if bad else "-"))
 
 
+@rule("C17", "C17.R7", "no lost wake-up: a `running`-gated notify is paired with a re-check after the flag is cleared")
+def r7(cx):
+    """`wake_up_memtable()` does not notify while the flush task's `running` flag is set.  The task decides that there is no
+    more work (has_pending_immutables() == false) and clears the flag LATER; a rotation in between is told `already
+    running` and its memtable stays queued with no wake-up pending.  Two such rotations reach the stall threshold and every
+    writer waits for a flush that nothing will start.  Decided: for every background task whose wake-up function gates
+    its notify on a flag, the task body re-checks for pending work (or re-notifies itself) after it cleared that flag and
+    before it waits again."""
+    from ..core import bool_edges
+    f = cx.f
+    nb = f.body("TaskManager::new")
+    tasks = [cb for cb in f.closures_of(nb) if cb.kind == "coroutine"]
+    cx.floor("background task bodies", len(tasks), 2)
+    gated = {}
+    for wn, flag in (("TaskManager::wake_up_memtable", "memtable_running"), ("TaskManager::wake_up_level", "level_running")):
+        wb = f.body(wn)
+        nots = [c for c in wb.calls if c.bb in wb.live and c.primary.endswith("Notify::notify_one")]
+        lds = [c for c in wb.calls if c.bb in wb.live and c.primary.endswith("::load") and flag in origin_of_operand(wb, c.args[0]).field_names()]
+        # gated: the flag is loaded and the notify is not on every path to the return
+        is_gated = bool(lds) and bool(nots) and not all(wb.set_dominates([n_.bb for n_ in nots], r_) for r_ in wb.rets)
+        gated[flag] = is_gated
+        cx.note("%s: notify %s" % (wn, "gated on `%s`" % flag if is_gated else "unconditional"))
+    n = 0
+    for cb in tasks:
+        stores = [c for c in cb.calls if c.bb in cb.live and c.primary.endswith("::store") and "running" in origin_of_operand(cb, c.args[0]).upvar_names and len(c.args) > 1 and const_value(c.args[1]) == 0]
+        waits = [c for c in cb.calls if c.bb in cb.live and c.primary.endswith("Notify::notified")]
+        if not stores or not waits:
+            continue
+        # which flag does this task own? the one its work function pairs with: memtable task calls compact_memtable
+        is_mem = bool(cb.calls_to("CompactionOperations::compact_memtable"))
+        flag = "memtable_running" if is_mem else "level_running"
+        if not gated.get(flag):
+            cx.ok("task %s: its wake-up notifies unconditionally" % cb.id, cb.where())
+            n += 1
+            continue
+        work = {"CompactionOperations::has_pending_immutables"} if is_mem else set()
+        for st in stores:
+            n += 1
+            if not work:
+                # the level task has no `pending` predicate: a lost wake-up only delays a compaction until the next flush
+                cx.ok("task %s: gated wake-up without a pending-work predicate (delay only, next flush re-notifies)" % cb.id, st.where())
+                continue
+            rechecks = {c.bb for c in cb.calls if c.bb in cb.live and (c.names & work or c.primary.endswith("Notify::notify_one") and "notify" in origin_of_operand(cb, c.args[0]).upvar_names)}
+            r = cb.reachable_after([st.bb], avoid=rechecks)
+            bad = [w for w in waits if w.bb in r]
+            cx.check(not bad, "task %s re-checks for queued work after clearing `%s` and before waiting again" % (cb.id, flag), "lost-wakeup|%s" % flag, st.where(),
+                     "the flush task clears `%s` after its last look at the immutable queue and goes back to waiting; wake_up_memtable() is silent while the flag is set, so a "
+                     "rotation in between leaves its memtable queued with no wake-up pending -- with two of them the write stall never ends and commit() hangs" % flag)
+    cx.floor("flag-clearing sites of background tasks", n, 2)
+
+
 def all_guards(f):
     w = lock_wrappers(f)
     res = []
